@@ -606,7 +606,16 @@ def gen_cell(rng, k, goodZ, nodata):
             break
     n = int(rng.integers(1, 25))
     species = rng.choice(goodZ, int(rng.integers(1, 5)))
+    if k % 3 == 2 and not nodata:
+        # structured pairs: elements whose atomic numbers differ by a power of two collide in any bit-packed / hashed per-element cache
+        z0 = int(rng.choice(goodZ)); gs = set(int(z) for z in goodZ)
+        mates = [z0 + d for d in (32, -32, 64, -64, 16, -16, 8, 1) if (z0 + d) in gs]
+        if mates:
+            species = np.array([z0, mates[(k // 3) % len(mates)]])
+            n = max(n, 2)
     Z = rng.choice(species, n)
+    if len(species) == 2 and k % 3 == 2:
+        Z[0], Z[-1] = species[0], species[1]
     if nodata:
         Z[int(rng.integers(0, n))] = int(rng.choice(NODATA_Z))
     occ = np.where(rng.random(n) < 0.3, 1.0, np.round(rng.uniform(0.05, 1.0, n), 3))
@@ -638,6 +647,12 @@ def generated_workload(ck, st, X, K, rng, tier, goodZ):
             # the route by which a user crystal obtains its stored volume from the library itself
             e = C.POINTER(xl.XrlError)()
             arr = lib.Crystal_ArrayInit(4, C.byref(e)); X._err(e)
+            # the array already holds crystals that sort before and after the new one, and the caller's .volume is deliberately
+            # wrong: the library is documented to store the recomputed volume
+            for other in ('zzzz_tail_%d' % k, 'AAAA_head_%d' % k):
+                oc = X.make_crystal(other, [4.0 + k % 3, 5.0, 6.0, 90.0, 90.0 + k % 7, 90.0], [(14, 1.0, 0.0, 0.0, 0.0)], 1.0)
+                lib.Crystal_AddCrystal(C.byref(oc), arr, None)
+            cs.volume = [0.0, 64.0, -1.0][k % 3]
             e = C.POINTER(xl.XrlError)()
             rc = lib.Crystal_AddCrystal(C.byref(cs), arr, C.byref(e)) if arr else 0
             err = X._err(e)
